@@ -58,7 +58,9 @@ impl Prop for C19 {
     if rng.chance(3, 20) {
       req["explain"] = json!(true);
     }
-    json!({"corpus": corpus, "query": gen_query(rng), "filter": gen_filter(rng), "req": req})
+    let query = gen_query(rng);
+    settle_exec(&query, &mut req);
+    json!({"corpus": corpus, "query": query, "filter": gen_filter(rng), "req": req})
   }
 
   fn run_case(&self, drv: &mut Driver, case: &Value, s: &mut Summary) {
@@ -79,7 +81,8 @@ impl Prop for C19 {
     let req = full_req(case);
     let exec = req["execution"].as_str().unwrap_or("wand").to_string();
     let plan = plan_json(&req["sort"]);
-    let initial = match run(&built.reader, &ranking_req(case, &req["sort"])) {
+    let rk = ranking_req(case, &req["sort"]);
+    let initial = match run(&built.reader, &rk) {
       Ok(r) => r,
       Err(e) => {
         s.case(case, false);
@@ -147,26 +150,29 @@ impl Prop for C19 {
     // ---------------- finder ----------------
     let ok = page_eq(&got, &want_page) && resp.next_cursor.is_some() == want_next;
     if !ok {
-      // classification by a deep-fetch twin (implementation only)
+      // classification by a deep-fetch twin (implementation only): same request, limit and
+      // candidate_size covering every match, so rescore_hits sees the whole ranking
       let deep = {
         let mut r = req.clone();
         r["candidate_size"] = json!(ALL);
+        r["limit"] = json!(ALL);
         run(&built.reader, &r).ok()
       };
-      let deep_got: Option<Vec<(String, f32)>> = deep.as_ref().map(|d| d.hits.iter().map(|h| (h.doc_id.clone(), h.score)).collect());
-      let deep_ok = deep.as_ref().map(|d| page_eq(deep_got.as_ref().unwrap(), &want_page) && d.next_cursor.is_some() == want_next).unwrap_or(false);
+      let deep_all: Option<Vec<(String, f32)>> = deep.as_ref().map(|d| d.hits.iter().map(|h| (h.doc_id.clone(), h.score)).collect());
+      let deep_page: Option<Vec<(String, f32)>> = deep_all.as_ref().map(|d| d.iter().take(limit).cloned().collect());
+      let deep_ok = deep_all.as_ref().map(|d| page_eq(deep_page.as_ref().unwrap(), &want_page) && (d.len() > limit) == want_next).unwrap_or(false);
       let obs = json!({"got": got, "expected": want_page, "got_next": resp.next_cursor.is_some(), "expected_next": want_next,
-        "with_candidate_size_all": deep_got, "window": w, "top_k": top_k, "matches": initial.hits.len(), "rejected_in_window": rejected,
-        "initial": initial.hits.iter().take(top_k + 3).map(|h| (h.doc_id.clone(), h.score)).collect::<Vec<_>>()});
-      // a hit from behind the window that overtook a hit of the window
-      let slides = |page: &[(String, f32)]| {
-        page.iter().enumerate().any(|(i, a)| rank0.get(&a.0).map(|r| *r >= wn).unwrap_or(false) && page[i + 1..].iter().any(|b| rank0.get(&b.0).map(|r| *r < wn).unwrap_or(false)))
+        "page_with_full_fetch": deep_page, "window": w, "top_k": top_k, "matches": initial.hits.len(), "rejected_in_window": rejected,
+        "initial": initial.hits.iter().take(top_k.max(w).min(30) + 2).map(|h| (h.doc_id.clone(), h.score)).collect::<Vec<_>>()});
+      // a hit from behind the window placed before a hit of the window
+      let slides = |list: &[(String, f32)]| {
+        list.iter().enumerate().any(|(i, a)| rank0.get(&a.0).map(|r| *r >= wn).unwrap_or(false) && list[i + 1..].iter().any(|b| rank0.get(&b.0).map(|r| *r < wn).unwrap_or(false)))
       };
       if deep_ok && w > top_k && initial.hits.len() > top_k {
         s.fail("rescore.window-beyond-fetched", "window_size exceeds the max(limit,candidate_size)+1 hits that are fetched before rescoring: hits of the window are neither rescored nor returned", case, obs);
       } else if deep_ok && rejected > 0 {
         s.fail("rescore.page-short-after-drops", "min_score removals are not refilled from beyond the fetched max(limit,candidate_size)+1 hits: page shorter than limit or next_cursor missing although more matches exist", case, obs);
-      } else if rejected > 0 && (slides(&got) || deep_got.as_ref().map(|g| slides(g)).unwrap_or(false)) {
+      } else if rejected > 0 && deep_all.as_ref().map(|g| slides(g)).unwrap_or(false) {
         s.fail("rescore.tail-slides-into-window", "after min_score removals the re-sorted prefix is again window_size long, so hits that were never rescored are sorted in among the rescored ones", case, obs);
       } else {
         // which part of the statement fails, for the signature
@@ -208,7 +214,13 @@ impl Prop for C19 {
     }
 
     // ---------------- correspondence ----------------
-    let scores: Vec<(String, f32)> = initial.hits.iter().map(|h| (h.doc_id.clone(), h.score)).collect();
+    let scores = match raw_scores(&built.reader, &rk, &initial) {
+      Ok(x) => x,
+      Err(e) => {
+        s.disagree("harness.raw_scores", case, json!(e), json!(null));
+        return;
+      }
+    };
     let m = drv.call("C19", model_req(&req, &lay, model_hits(&lay, &scores, Some(&outcomes)), None, false));
     if let Some(d) = compare(&m, &resp, &lay, total_is_exact(&req, &case["query"])) {
       s.disagree("post.search", case, json!({"diff": d, "hits": got}), m);
